@@ -32,7 +32,7 @@ from pynguin.utils.orderedset import OrderedSet
 if TYPE_CHECKING:
     import pynguin.ga.computations as ff
     import pynguin.testcase.testcase as tc
-    from pynguin.testcase.execution import SubprocessTestCaseExecutor
+    from pynguin.testcase.execution import AbstractTestCaseExecutor, SubprocessTestCaseExecutor
 
 _LOGGER = logging.getLogger(__name__)
 
@@ -281,9 +281,14 @@ class IterativeMinimizationVisitor(ModificationAwareTestCaseVisitor):
     4. If fitness remains the same or improves, remove the statement from the original
     """
 
-    def __init__(self, fitness_functions: OrderedSet[ff.TestSuiteCoverageFunction]):  # noqa: D107
+    def __init__(  # noqa: D107
+        self,
+        fitness_functions: OrderedSet[ff.TestSuiteCoverageFunction],
+        executor: AbstractTestCaseExecutor | None = None,
+    ):
         super().__init__()
         self._fitness_functions = fitness_functions
+        self._executor = executor
         self._removed_statements = 0
 
     @property
@@ -303,6 +308,34 @@ def _coverages(
     suite = tsc.TestSuiteChromosome()
     suite.add_test_case_chromosome(tcc.TestCaseChromosome(test_case=test_case))
     return [ff_.compute_coverage(suite) for ff_ in fitness_functions]
+
+
+def _assertions_hold(executor: AbstractTestCaseExecutor | None, test_case: tc.TestCase) -> bool:
+    """Check that every assertion attached to the test case holds when it is executed.
+
+    Statement minimization runs after assertion generation.  Removing a statement that
+    changes the state of an object (``var_2.put(...)``) leaves coverage untouched but
+    invalidates assertions that later statements carry about that object, so a
+    candidate is only acceptable if its assertions still hold.
+
+    Args:
+        executor: The executor to re-execute the candidate with; without one the
+            assertions cannot be checked and the candidate is judged by coverage only.
+        test_case: The candidate test case, carrying its assertions.
+
+    Returns:
+        Whether all assertions of the test case hold.
+    """
+    if executor is None or not test_case.get_assertions():
+        return True
+    import pynguin.assertion.assertiontraceobserver as ato  # noqa: PLC0415
+
+    with executor.temporarily_add_remote_observer(ato.RemoteAssertionVerificationObserver()):
+        result = executor.execute(test_case)
+    if result.timeout:
+        return False
+    trace = result.assertion_verification_trace
+    return not any(trace.failed.values()) and not any(trace.error.values())
 
 
 class ForwardIterativeMinimizationVisitor(IterativeMinimizationVisitor):
@@ -325,7 +358,9 @@ class ForwardIterativeMinimizationVisitor(IterativeMinimizationVisitor):
                 test_clone = test_case.clone()
                 test_clone.remove_statement_with_forward_dependencies(i)
                 minimized_coverages = _coverages(self._fitness_functions, test_clone)
-                if all(map(math.isclose, original_coverages, minimized_coverages)):
+                if all(
+                    map(math.isclose, original_coverages, minimized_coverages)
+                ) and _assertions_hold(self._executor, test_clone):
                     removed = test_case.remove_statement_with_forward_dependencies(i)
                     self._removed_statements += len(removed)
                     statements_changed = True
@@ -358,7 +393,9 @@ class BackwardIterativeMinimizationVisitor(IterativeMinimizationVisitor):
                 test_clone = test_case.clone()
                 test_clone.remove_statement_with_forward_dependencies(i)
                 minimized_coverages = _coverages(self._fitness_functions, test_clone)
-                if all(map(math.isclose, original_coverages, minimized_coverages)):
+                if all(
+                    map(math.isclose, original_coverages, minimized_coverages)
+                ) and _assertions_hold(self._executor, test_clone):
                     removed = test_case.remove_statement_with_forward_dependencies(i)
                     self._removed_statements += len(removed)
                     statements_changed = True
@@ -490,8 +527,13 @@ class CrashPreservingMinimizationVisitor(ModificationAwareTestCaseVisitor):
 class CombinedMinimizationVisitor(cv.ChromosomeVisitor):
     """Combines test suite and test case minimization for optimal results."""
 
-    def __init__(self, fitness_functions: OrderedSet[ff.TestSuiteCoverageFunction]):  # noqa: D107
+    def __init__(  # noqa: D107
+        self,
+        fitness_functions: OrderedSet[ff.TestSuiteCoverageFunction],
+        executor: AbstractTestCaseExecutor | None = None,
+    ):
         self._fitness_functions = fitness_functions
+        self._executor = executor
         self._removed_statements = 0
 
     @property
@@ -551,7 +593,9 @@ class CombinedMinimizationVisitor(cv.ChromosomeVisitor):
                         for fitness_function in self._fitness_functions
                     ]
 
-                    if all(map(math.isclose, original_coverage, minimized_coverages)):
+                    if all(
+                        map(math.isclose, original_coverage, minimized_coverages)
+                    ) and _assertions_hold(self._executor, clone_test_case):
                         removed = test_case.remove_statement_with_forward_dependencies(i)
                         self._removed_statements += len(removed)
                         chromosome.set_test_case_chromosome(
